@@ -67,6 +67,7 @@ WORDS = ["const", "volatile", "const volatile", "int", "char*", "void", "unsigne
          "void (*)(int, char)", "operator()", "operator<", "operator<<", "operator,", "operator->", "`anonymous namespace'", "this",
          "Widget", "paint", "ns", "T", "...", "decltype(auto)", "<lambda(int)>", "{lambda()#1}", "[abi:cxx11]", "unlimited", "n/a"]
 _LITS = None
+_NAME_CAP = [None]     # deep-stack cases: thousands of frames each print their names; keep names short there
 
 
 def source_literals():
@@ -98,6 +99,11 @@ def source_literals():
 
 
 def gen_name(rng, kind="func"):
+    out = _gen_name(rng, kind)
+    return out[:_NAME_CAP[0]] if _NAME_CAP[0] else out
+
+
+def _gen_name(rng, kind="func"):
     """A function / file / module / thread name. Structured C++-like names with argument lists, with non-ASCII text,
     nothing, very long runs and the splitting punctuation placed next to every structural character."""
     st = rng.below(10)
@@ -380,6 +386,7 @@ class Gen:
         bits = CPUS[cpu][0]
         w = bits // 8
         M = (1 << bits) - 1
+        _NAME_CAP[0] = 120 if theme == "deep" else None
         # every option set on every CPU; the flags only x86 honours (recover_function_args) mostly on x86
         opt = rng.choice([0, 1, 2, 2, 3, 4, 5])
         if cpu == "x86" and (theme == "args" or rng.chance(1, 2)):
@@ -534,6 +541,7 @@ class Gen:
             self.count("dump_mutated")
         if nsym and rng.chance(1, 8):
             toks.append("smut=%d:%d:%d" % (rng.below(nsym), rng.below(1 << 16), rng.below(256)))
+        _NAME_CAP[0] = None
         return " ".join(toks)
 
     def file_case(self):
